@@ -63,7 +63,7 @@ func Main2(types map[string]reflect.Type, fns []func() reflect.Value, idxPath, s
 			es, perr := rt.ParseAll(line)
 			if perr != nil {
 				fmt.Fprintln(out, "bad-line")
-			} else if len(es) == 5 && es[0].Atom == "op" && es[2].Atom == "gostring" {
+			} else if len(es) == 5 && es[0].Atom == "op" && (es[2].Atom == "gostring" || es[2].Atom == "gostringx") {
 				fmt.Fprintf(out, "%s impl=%s\n", es[1].Atom, eval(types, fns, idx[es[1].Atom], es[3].Atom, es[4], texts[es[1].Atom]))
 			}
 		}
